@@ -27,9 +27,9 @@ PROCESSED = "data/no_food_trade/processed_data"
 def run(index, rep):
     rows, header = load_table(index)
     rep.note_analysed("combined_table", f"{len(rows)} rows x {len(header)} columns")
-    table(index, rep, rows, header)
-    wire(index, rep, header)
-    avg(index, rep)
+    rep.guard(table, index, rep, rows, header)
+    rep.guard(wire, index, rep, header)
+    rep.guard(avg, index, rep)
 
 
 def load_table(index):
